@@ -112,7 +112,7 @@ class C18(object):
     rule = ("one run = a history of 2..14 save/load/re-save operations over 1..3 slots of one format family (text "
             "columnfile | hdf columnfile | parameters | grains text | grains hdf | ubi | sparse frame hdf), every load "
             "re-reading from disk; half of the text-writer histories inject a write error into the k-th write(); "
-            "distinct = distinct (family, history digest); non-trivial = at least one acknowledged save was read back; also: text files around 1024/4096/8192 rows, sparse groups saved again in place, the mmap reader, parameter files through indexer.loadpars/savepars and hand-edited, re-saves with the signs of zeros flipped, metadata of every pixel array, grain lists of two phases in one HDF5 file")
+            "distinct = distinct (family, history digest); non-trivial = at least one acknowledged save was read back; also: text files around 1024/4096/8192 rows, sparse groups saved again in place, the mmap reader, parameter files through indexer.loadpars/savepars and hand-edited, re-saves with the signs of zeros flipped, metadata of every pixel array, grain lists of two phases in one HDF5 file, dashed header names, a foreign HDF5 peaks file read first")
     components = {"real": ["ImageD11.columnfile (writefile, readfile, colfile_to_hdf, colfileobj_to_hdf, colfile_from_hdf)",
                            "ImageD11.parameters (saveparameters, loadparameters, dumbtypecheck)",
                            "ImageD11.grain (write/read_grain_file, write/read_grain_file_h5)",
